@@ -15,7 +15,8 @@ Result: the property is FALSE of the current code (`C30_refuted`), for two indep
       node's own activations (witness `C30_partial_needs_seq`: 2 nodes).
 `C30_partial`: the property holds for every program and every schedule in which every node runs its
 grain operations sequentially (one logical thread per node) and no step takes the F1 branch.
-`C30_fixed`: with `tryClaimGrain` retrying the claim (`fix = true`) the F1 guard is not needed.
+`C30_fixed`: a theorem about the PROPOSED repair only (`fix = true`, tryClaimGrain retrying the claim;
+not applied to /repo): the F1 guard is then not needed.
 -/
 import GoaktVerif.Lemmas.C30Inv
 
@@ -76,8 +77,9 @@ theorem C30_partial (nn : Nat) (thr : List (Node × List Op)) (h1 : oneThread th
   right
   simpa [noLostClaim] using h
 
-/-- REPAIRED tryClaimGrain (retry the claim when the owner record vanished): sequential nodes ⇒ the
-property holds for every schedule, no guard on the steps. -/
+/-- MODEL OF THE PROPOSED FIX, NOT OF THE CODE (`fix = true`: tryClaimGrain retries the claim when the
+owner record vanished; fixes/C30-retry-lost-claim.diff, not applied to /repo): sequential nodes ⇒ the
+property holds for every schedule, no guard on the steps. Nothing about /repo is claimed by this theorem. -/
 theorem C30_fixed (nn : Nat) (thr : List (Node × List Op)) (h1 : oneThread thr = true) :
     ∀ c, Reach true anyStep (init nn thr) c → Safe c := by
   intro c hr
